@@ -284,17 +284,19 @@ def updExprs : Upd → List Expr
   | .cond t a b => [t, a, b]
 
 /-- static Python kind of the fold: iterate the kind of the update from the seed's kind to a fixed point -/
-def aggKind (seed : Expr) (u : Upd) : PK × Nat :=
+def condKindR (rp : Bool) (a b : Expr) : PK := if a.pyKind rp = .float || b.pyKind rp = .float then .float else .int
+
+def aggKind (seed : Expr) (u : Upd) (rp : Bool := true) : PK × Nat :=
   let kindOf (acc : CT) : PK :=
     match u with
-    | .plain e => (e.retype acc).pyKind true
-    | .cond _ a b => condKind (a.retype acc) (b.retype acc)
+    | .plain e => (e.retype acc).pyKind rp
+    | .cond _ a b => condKindR rp (a.retype acc) (b.retype acc)
   -- "at least as wide as every value folded in": the accumulator itself is not one of them
   let w : Nat :=
     match u with
     | .plain e => (e.retype .int).width
     | .cond _ a b => condWidth (a.retype .int) (b.retype .int)
-  let k0 := seed.pyKind true
+  let k0 := seed.pyKind rp
   let ct (k : PK) : CT := match k with | .int => .int | .bool => .bool | .float => .double
   let k1 := kindOf (ct k0)
   let j1 := if k0 = .float || k1 = .float then PK.float else PK.int
@@ -432,7 +434,10 @@ def specOn (j : Json) : Except String Json := do
     why := kindWhy
   -- the other reading of `**` (CPython: int ** non-negative int is an int): an implementation that keeps such a
   -- power an exact int is not reported either
-  let altKind : Option PK := match f with | .plain e => some (e.pyKind false) | _ => none
+  let altKind : Option PK := match f with
+    | .plain e => some (e.pyKind false)
+    | .cond _ a b => some (condKindR false a b)
+    | .agg seed u => some (aggKind seed u false).1
   let mut altOk : Bool := match altKind with | some k => kindOk declared k facts.width | none => false
   let mut idx := 0
   for s in samples do
